@@ -336,7 +336,7 @@ META = {
                    "cell's term and an exact conversion; (2) the very same text is fed to the real from_tsv / _extract_data_from_tsv (list of lines and "
                    "seekable handle) and the table compared; (3) the parser is run on the template instantiated with SYMBOLIC observation and sample IDs (z3 "
                    "strings under the C03 ID domain) -- every strip/split/startswith/rsplit/float() it performs is decided by the solver; (4) `biom convert` "
-                   "--to-tsv and back with --process-obs-metadata (file I/O stubbed). 1xM, Nx1 and general shapes, sorted and reordered tables.",
+                   "--to-tsv and back with --process-obs-metadata (file I/O stubbed), to JSON and, through the real write_biom_table, into an in-memory HDF5 store; (5) load_table on plain and gzip files of a modelled file system. 1xM, Nx1 and general shapes, sorted and reordered tables.",
     'encoded': {'biom/table.py': ['delimited_self', 'to_tsv', '_extract_data_from_tsv', 'from_tsv', '_to_dense', '_iter_obs'],
                 'biom/cli/table_converter.py': ['_convert'], 'biom/cli/util.py': ['write_biom_table'], 'biom/parse.py': ['parse_biom_table', 'load_table'],
                 'biom/util.py': ['biom_open', 'is_gzip']},
